@@ -116,11 +116,12 @@ def join_b(x, y, nlo, widen=False, nx=None, ny=None):
 
 
 class State:
-    __slots__ = ('r', 'nlo', 'nmod', 'fl', 'slots')
+    __slots__ = ('r', 'nlo', 'nhi', 'nmod', 'fl', 'slots')
 
     def __init__(self):
         self.r = {}
         self.nlo = None
+        self.nhi = None
         self.nmod = (1, 0)
         self.fl = None
         self.slots = {}
@@ -128,17 +129,18 @@ class State:
     def copy(self):
         s = State()
         s.r = dict(self.r)
-        s.nlo, s.nmod, s.fl = self.nlo, self.nmod, self.fl
+        s.nlo, s.nhi, s.nmod, s.fl = self.nlo, self.nhi, self.nmod, self.fl
         s.slots = dict(self.slots)
         return s
 
     def key(self):
-        return (tuple(sorted(self.r.items(), key=lambda kv: kv[0])), self.nlo, self.nmod, self.fl, tuple(sorted(self.slots.items())))
+        return (tuple(sorted(self.r.items(), key=lambda kv: kv[0])), self.nlo, self.nhi, self.nmod, self.fl, tuple(sorted(self.slots.items())))
 
 
 class Bounds:
-    def __init__(self, u, f, flow, count_reg):
+    def __init__(self, u, f, flow, count_reg, cut=()):
         self.u, self.f, self.fl, self.count_reg = u, f, flow, count_reg
+        self.cut = set(cut)        # instructions whose successors are not followed (analysis of the paths that avoid them)
         self.IN = {}
         self.visits = {}
 
@@ -194,6 +196,10 @@ class Bounds:
             if st.nlo is None or bound > st.nlo:
                 st.nlo = bound
                 self.norm_n(st)
+        elif d < 0:
+            bound = c // (-d)          # c + d*N >= 0  <=>  N <= floor(c / |d|)
+            if st.nhi is None or bound < st.nhi:
+                st.nhi = bound
 
     def tighten_hi(self, val, u, st):
         """largest value <= u=(c,k) that is congruent to val's residue"""
@@ -528,8 +534,9 @@ class Bounds:
             if it > 200000:
                 raise AnalysisBroken('%s:%s: BOUNDS did not converge' % (u.name, f.name))
             i = u.insns[a]
+            if a in self.cut:
+                continue
             st = self.IN[a].copy()
-            # N-facts make exact forms' congruences current
             self.transfer(st, i)
             succs = []
             if is_cond_jump(i.mn):
@@ -559,6 +566,7 @@ class Bounds:
         widen = self.visits[n] > 4
         new = State()
         new.nlo = None if old.nlo is None or s.nlo is None else min(old.nlo, s.nlo)
+        new.nhi = None if old.nhi is None or s.nhi is None else max(old.nhi, s.nhi)
         new.nmod = mod_join(old.nmod, s.nmod)
         new.fl = old.fl if old.fl == s.fl else None
         for r in set(old.r) & set(s.r):
